@@ -35,3 +35,6 @@ func VerifC02PrepareNSEC3(records []dns.RR, signer string) (owners [][]byte, cla
 	}
 	return owners, p.qclass, p.parameters.iterations, append([]byte(nil), p.parameters.salt...), nil
 }
+
+// VerifC02SignatureMatches exposes signatureMatchesRRset (which RRSIG may vouch for which RRset).
+func VerifC02SignatureMatches(sig *dns.RRSIG, set []dns.RR) bool { return signatureMatchesRRset(sig, set) }
